@@ -356,5 +356,144 @@ func ResourceNames(src string) map[string][2]int {
 
 var _ = msl.DefaultOptions
 
-// RunMSL is filled in once the MSL dialect of ctext is available.
-func RunMSL(c *Case) Outcome { return Outcome{Unsupported: "msl runner not built yet"} }
+// RunMSL compiles with the MSL backend (c.Opts: msl = "1.2"…"3.1", bind =
+// "auto"|"fake"|"map", idx / buf = "unchecked"|"restrict"|"rzsw", zeroinit,
+// loopbound) and executes the text.
+func RunMSL(c *Case) (o Outcome) {
+	defer func() {
+		if r := recover(); r != nil {
+			o = Outcome{Rejected: fmt.Sprintf("panic: %v", r)}
+		}
+	}()
+	m, stage, err := Lower(c.WGSL)
+	if err != nil {
+		return Outcome{Rejected: stage + ": " + err.Error()}
+	}
+	maj, mnr := parseVersion(c.Opts["msl"], 2, 1)
+	pol := func(s string) msl.BoundsCheckPolicy {
+		switch s {
+		case "restrict":
+			return msl.BoundsCheckRestrict
+		case "rzsw":
+			return msl.BoundsCheckReadZeroSkipWrite
+		}
+		return msl.BoundsCheckUnchecked
+	}
+	opts := msl.Options{LangVersion: msl.Version{Major: uint8(maj), Minor: uint8(mnr)},
+		BoundsCheckPolicies:           msl.BoundsCheckPolicies{Index: pol(c.Opts["idx"]), Buffer: pol(c.Opts["buf"])},
+		ZeroInitializeWorkgroupMemory: c.Opts["zeroinit"] != "0",
+		ForceLoopBounding:             optBool(c.Opts, "loopbound")}
+	type bg struct {
+		handle int
+		name   string
+		key    [2]int
+	}
+	var globals []bg
+	for i, g := range m.GlobalVariables {
+		if g.Binding == nil {
+			continue
+		}
+		switch m.Types[g.Type].Inner.(type) {
+		case ir.SamplerType, ir.ImageType:
+			continue
+		}
+		globals = append(globals, bg{i, g.Name, [2]int{int(g.Binding.Group), int(g.Binding.Binding)}})
+	}
+	sort.Slice(globals, func(i, j int) bool {
+		a, b := globals[i].key, globals[j].key
+		return a[0] < b[0] || (a[0] == b[0] && a[1] < b[1])
+	})
+	slotOf := map[[2]int]uint32{}
+	bind := c.Opts["bind"]
+	switch bind {
+	case "fake":
+		opts.FakeMissingBindings = true
+	case "map":
+		res := msl.EntryPointResources{Resources: map[ir.ResourceBinding]msl.BindTarget{}}
+		for i, g := range globals {
+			sl := uint8(10 + 2*i)
+			slotOf[g.key] = uint32(sl)
+			res.Resources[ir.ResourceBinding{Group: uint32(g.key[0]), Binding: uint32(g.key[1])}] = msl.BindTarget{Buffer: &sl, Mutable: true}
+		}
+		ss := uint8(30)
+		res.SizesBuffer = &ss
+		opts.PerEntryPointMap = map[string]msl.EntryPointResources{c.Entry: res}
+	default:
+		// naga assigns sequential buffer indices over the buffer globals sorted by (group, binding)
+		for i, g := range globals {
+			slotOf[g.key] = uint32(i)
+		}
+	}
+	text, info, err := msl.Compile(m, opts)
+	if err != nil {
+		return Outcome{Rejected: "msl: " + err.Error()}
+	}
+	p, err := ctext.Parse(ctext.MSL, text)
+	if err != nil {
+		o = parseErr("MSL", err)
+		o.Text = text
+		return o
+	}
+	entry := info.EntryPointNames[c.Entry]
+	if entry == "" {
+		entry = c.Entry
+	}
+	var ls [3]uint32
+	for _, ep := range m.EntryPoints {
+		if ep.Name == c.Entry {
+			ls = ep.Workgroup
+		}
+	}
+	cfg := ctext.RunConfig{Entry: entry, NumWorkgroups: c.NumWG, LocalSize: ls, StepLimit: c.StepBudget(),
+		Buffers: map[ctext.Slot][]byte{}, BlockByName: map[string][]byte{}, SizesFrom: map[string]ctext.Slot{}, SizesFromName: map[string]string{}}
+	var ei ctext.EntryInfo
+	for _, e := range p.EntryPoints() {
+		if e.Name == entry {
+			ei = e
+		}
+	}
+	if ei.Name == "" {
+		return Outcome{Invalid: fmt.Sprintf("entry point %q reported by msl.Compile does not exist in the emitted text", entry), Text: text}
+	}
+	init := c.InitialBuffers()
+	for _, g := range globals {
+		data, ok := init[g.key]
+		if !ok {
+			continue
+		}
+		member := fmt.Sprintf("size%d", g.handle)
+		if bind == "fake" {
+			var arg *ctext.ArgInfo
+			for i := range ei.Args {
+				a := &ei.Args[i]
+				if a.Name == g.name || (strings.HasPrefix(a.Name, g.name+"_") && strings.Trim(a.Name[len(g.name)+1:], "0123456789") == "") {
+					arg = a
+					break
+				}
+			}
+			if arg == nil {
+				continue // not used by this entry point
+			}
+			cfg.BlockByName[arg.Name] = data
+			cfg.SizesFromName[member] = arg.Name
+		} else {
+			sl := ctext.Slot{Class: 'b', Index: slotOf[g.key]}
+			cfg.Buffers[sl] = data
+			cfg.SizesFrom[member] = sl
+		}
+	}
+	res, err := p.Run(cfg)
+	if err != nil {
+		if _, ok := err.(*ctext.UnsupportedError); ok {
+			return Outcome{Unsupported: err.Error(), Text: text}
+		}
+	}
+	if oo, done := textOutcome("MSL", res, err, c); done {
+		oo.Text = text
+		return oo
+	} else {
+		o = oo
+	}
+	o.Buffers, o.Text = init, text
+	return o
+}
